@@ -97,25 +97,26 @@ fn inv(op: &Op, _ctx: &dyn Context, operands: &mut dyn CoordinateSet) -> usize {
         let sin_lam_p = (phi_pp.cos() * lam_pp.sin()) / phi_p.cos();
         let lam_p = sin_lam_p.asin();
 
-        let C = (K - (FRAC_PI_4 + 0.5 * phi_p).tan().ln()) / c;
+        let C = ((FRAC_PI_4 + 0.5 * phi_p).tan().ln() - K) / c;
 
         let lam = (lam_p / c) + lam_0;
         let mut phi = phi_p;
 
-        let mut prev_phi = phi_p;
+        // Iterate at least once: phi_p is just the starting value
+        let mut converged = false;
         let mut j = MAX_ITERATIONS;
         while j > 0 {
-            if (phi - prev_phi).abs() < EPS_10 {
-                break;
-            }
-
             let S = C + e * ((FRAC_PI_4 + (e * phi.sin()).asin() / 2.0).tan().ln());
 
-            prev_phi = phi;
+            let prev_phi = phi;
             phi = 2.0 * (S.exp()).atan() - FRAC_PI_2;
             j -= 1;
+            if (phi - prev_phi).abs() < EPS_10 {
+                converged = true;
+                break;
+            }
         }
-        if j <= 0 {
+        if !converged {
             operands.set_xy(i, f64::NAN, f64::NAN);
             continue;
         } else {
